@@ -82,36 +82,45 @@ def mat(rows, f=str):
 
 # --------------------------------------------------------------------------- lean
 
-_built = False
+_built = set()
 
 
-def lake_build():
-    global _built
-    if _built:
+def lake_build(prop):
+    """Build exactly what this property needs: its theorems and the modules its driver imports.
+    (The Lean side is hand-written and does not depend on /repo; a failure here is infrastructure.)"""
+    if prop in _built:
         return
-    t0 = time.time()
-    r = subprocess.run(["lake", "build"], cwd=LEAN_DIR, capture_output=True, text=True, timeout=3600)
+    targets = ["ArtapModel.Props." + prop]
+    drv = os.path.join(LEAN_DIR, "drivers", prop + ".lean")
+    if os.path.exists(drv):
+        for line in open(drv):
+            m = re.match(r"\s*import\s+(\S+)", line)
+            if m:
+                targets.append(m.group(1))
+    r = subprocess.run(["lake", "build"] + targets, cwd=LEAN_DIR, capture_output=True, text=True, timeout=7200)
     if r.returncode != 0:
         raise InfraError("lake build failed (the Lean side does not depend on /repo):\n" + (r.stdout + r.stderr)[-3000:])
-    _built = True
-    return time.time() - t0
+    _built.add(prop)
 
 
-def lean_run(lines, timeout=1800):
-    """Send request lines to the model driver, return the answers (prefix stripped)."""
+def lean_run(prop, lines, timeout=3600):
+    """Send request lines to the property's model driver, return the answers (prefix stripped)."""
     if not lines:
         return []
-    lake_build()
+    lake_build(prop)
     for l in lines:
         if "\n" in l:
             raise InfraError("newline inside a request")
-    r = subprocess.run(["lake", "env", "lean", "--run", "Driver.lean"], cwd=LEAN_DIR,
+    r = subprocess.run(["lake", "env", "lean", "--run", "drivers/%s.lean" % prop], cwd=LEAN_DIR,
                        input="\n".join(lines) + "\n", capture_output=True, text=True, timeout=timeout)
     out = r.stdout.splitlines()
     bad = [o for o in out if not o.startswith("=> ")]
     if r.returncode != 0 or bad or len(out) != len(lines):
         raise InfraError("driver protocol error: rc=%s answers=%d requests=%d unprefixed=%r stderr=%r" % (
             r.returncode, len(out), len(lines), bad[:3], r.stderr[-1500:]))
+    badop = [l for l, o in zip(lines, out) if o == "=> bad-op"]
+    if badop:
+        raise InfraError("driver answered bad-op (malformed request from the harness): %r" % badop[:2])
     return [o[3:] for o in out]
 
 
@@ -145,7 +154,9 @@ def lean_sources():
         for f in files:
             if f.endswith(".lean"):
                 res.append(os.path.join(root, f))
-    res.append(os.path.join(LEAN_DIR, "Driver.lean"))
+    for f in os.listdir(os.path.join(LEAN_DIR, "drivers")):
+        if f.endswith(".lean"):
+            res.append(os.path.join(LEAN_DIR, "drivers", f))
     return sorted(res)
 
 
@@ -173,7 +184,7 @@ def audit(prop, thorough=False):
     """Return dict(obligations, discharged, details, checker_cmd).  Every `theorem` of
     Props/<prop>.lean is an obligation; it is discharged when the library builds, the
     theorem's axioms are within the allowed set and no forbidden token occurs in the sources."""
-    lake_build()
+    lake_build(prop)
     names = theorem_names(prop)
     if not names:
         raise InfraError("no theorems found for " + prop)
@@ -203,7 +214,7 @@ def audit(prop, thorough=False):
             details[n] = {"ok": False, "axioms": None}
             continue
         details[n] = {"ok": set(ax) <= ALLOWED_AXIOMS and not bad_tokens, "axioms": ax}
-    cmd = "cd lean && lake build && lake env lean .lake/audit/%s.lean  # '#print axioms' for every theorem of Props/%s.lean" % (prop, prop)
+    cmd = "cd lean && lake build ArtapModel.Props.%s && lake env lean .lake/audit/%s.lean  # '#print axioms' for every theorem of Props/%s.lean" % (prop, prop, prop)
     res = {"obligations": len(names), "discharged": sum(1 for d in details.values() if d["ok"]),
            "details": details, "checker_cmd": cmd, "forbidden_tokens": bad_tokens}
     if thorough:
@@ -265,7 +276,7 @@ class Ctx:
         self.failures.append({"key": key, "what": what, "case": case, "no_failing_input_found": no_input})
 
     def lean(self, lines):
-        return lean_run(lines)
+        return lean_run(self.prop, lines)
 
 
 def load_known():
@@ -351,6 +362,8 @@ def shrink_list(xs, still_fails, min_len=0):
 
 def quiet_artap():
     import logging
+    import warnings
+    warnings.filterwarnings("ignore")
     logging.disable(logging.CRITICAL)
     if REPO not in sys.path:
         sys.path.insert(0, REPO)
